@@ -11,50 +11,52 @@ use vh_lite::{read_cases, drive, drive_group, quiet_panics, Out};
 mod tc_right__to;
 mod tc_left__mrt;
 mod tc_left__init;
-mod tc_left__u64;
-mod tc_nonlin__perm2;
-mod mutual__pari;
-mod mutual__src2;
-mod mutual__perm2;
-mod scc_chain__pari;
-mod scc_chain__u64;
-mod repeated__ser;
-mod repeated__u64;
-mod three_dyn__perm2;
-mod four_dyn__pari;
-mod conds__src1;
-mod conds__perm1;
-mod count_up__par;
-mod multi_head__topar;
-mod facts__run;
-mod facts__redecl;
+mod tc_left__permpar;
+mod tc_nonlin__topar;
+mod mutual__ser;
+mod mutual__src0;
+mod mutual__runhead;
+mod mutual__u64;
+mod scc_chain__perm2;
+mod diamond__pari;
+mod repeated__perm2;
+mod three_dyn__pari;
+mod three_dyn__u64;
+mod conds__run;
+mod conds__redecl;
+mod conds__ren;
+mod count_up__to;
+mod multi_head__perm2;
+mod facts__gen;
+mod facts__init3;
 mod facts__str;
 mod opt_cols__gen;
-mod opt_cols__runpar;
-mod same_gen__to;
-mod same_gen__strpar;
-mod not_reorderable__ren;
-mod pre_join_rec__perm2;
-mod two_inputs__run;
-mod two_inputs__redecl;
-mod two_inputs__str;
-mod ternary__pari;
-mod bound_mix__ser;
-mod bound_mix__u64;
-mod join_chain__permpar;
-mod reach__par;
-mod self_join3__par;
-mod lag_right__perm2;
-mod lag_left__pari;
-mod lag_mid__ser;
-mod lag_mid__u64;
-mod multi_head_rec__par;
-mod sp_dual__pari;
-mod sp_dual__src2;
-mod sp_dual__perm2;
-mod longest_capped__ser;
-mod set_reach__to;
-mod set_reach__srcto;
+mod opt_cols__init3;
+mod same_gen__par;
+mod same_gen__str;
+mod not_reorderable__perm1;
+mod pre_join_rec__topar;
+mod two_inputs__to;
+mod two_inputs__srcto;
+mod two_inputs__perm1;
+mod wild__par;
+mod ternary__permpar;
+mod bound_mix__perm2;
+mod join_chain__pari;
+mod cond_simple_join__ser;
+mod zero_arity__ser;
+mod lag_right__pari;
+mod lag_right__u64;
+mod lag_three__par;
+mod lag_mid__perm2;
+mod lag_late_delta__pari;
+mod multi_head_rec__exp;
+mod sp_dual__mrt;
+mod sp_dual__init;
+mod sp_dual__permpar;
+mod longest_capped__pari;
+mod set_reach__run;
+mod set_reach__redecl;
 mod bset__pari;
 mod opt_lat__ser;
 mod lex_dual_lat__ser;
@@ -63,104 +65,108 @@ mod lat_multi_improve__topar;
 mod lat_count_all__pari;
 mod lat_input__topar;
 mod lat_input__srcred;
-mod count_paths__to;
-mod count_paths__srcto;
-mod neg_basic__pari;
-mod neg_basic__src2;
-mod neg_basic__perm2;
-mod agg_depth__ser;
-mod agg_lattice__to;
-mod neg_rec_after__exp;
-mod agg_empty__to;
-mod agg_const_args__par;
-mod disj__par;
-mod disj__src1;
+mod count_paths__par;
+mod count_paths__src1;
+mod count_paths__runpar;
+mod neg_basic__mrt;
+mod neg_basic__init;
+mod neg_basic__permpar;
+mod agg_depth__pari;
+mod agg_user__ser;
+mod agg_bound_mix__ser;
+mod agg_empty_rel__ser;
+mod agg_const_args__exp;
+mod disj__to;
+mod disj__srcto;
 mod disj__perm1;
 mod disj_nested__pari;
 mod rep_expr__ser;
 mod multi_head_disj__exp;
 mod mac_basic__par;
 mod mac_basic__src1;
-mod mac_basic__exp;
-mod mac_nested__par;
-mod mac_gensym_disj__exppar;
-mod mac_block__pari;
-mod stress_lat__ser;
-mod stress_rel__pari;
-mod rnd_core_03__par;
-mod rnd_core_06__ser;
-mod rnd_core_08__pari;
-mod rnd_core_11__par;
-mod rnd_core_14__ser;
-mod rnd_core_16__pari;
-mod rnd_core_19__par;
-mod rnd_core_22__ser;
-mod rnd_core_24__pari;
-mod rnd_core_27__par;
-mod rnd_core_30__ser;
-mod rnd_agg_02__pari;
-mod rnd_agg_05__par;
-mod rnd_agg_08__ser;
-mod rnd_agg_10__pari;
-mod rnd_agg_13__par;
-mod rnd_prec_01__ser;
-mod rnd_prec_02__to;
-mod rnd_prec_04__par;
-mod rnd_prec_05__topar;
-mod rnd_prec_07__pari;
-mod rnd_prea_01__ser;
-mod rnd_prea_03__pari;
-mod rnd_prea_06__par;
+mod mac_basic__runpar;
+mod mac_capture__exppar;
+mod mac_gensym_disj__pari;
+mod mac_block__ser;
+mod mac_disj__exp;
+mod stress_rel__ser;
+mod rnd_core_02__pari;
+mod rnd_core_05__par;
+mod rnd_core_08__ser;
+mod rnd_core_10__pari;
+mod rnd_core_13__par;
+mod rnd_core_16__ser;
+mod rnd_core_18__pari;
+mod rnd_core_21__par;
+mod rnd_core_24__ser;
+mod rnd_core_26__pari;
+mod rnd_core_29__par;
+mod rnd_agg_02__ser;
+mod rnd_agg_04__pari;
+mod rnd_agg_07__par;
+mod rnd_agg_10__ser;
+mod rnd_agg_12__pari;
+mod rnd_agg_15__par;
+mod rnd_prec_02__par;
+mod rnd_prec_03__topar;
+mod rnd_prec_05__pari;
+mod rnd_prec_07__ser;
+mod rnd_prec_08__to;
+mod rnd_prea_03__ser;
+mod rnd_prea_05__pari;
+mod rnd_prea_08__par;
 
 fn lookup(name: &str) -> fn() -> Box<dyn Driven> {
    match name {
       "tc_right__to" => tc_right__to::make,
       "tc_left__mrt" => tc_left__mrt::make,
       "tc_left__init" => tc_left__init::make,
-      "tc_left__u64" => tc_left__u64::make,
-      "tc_nonlin__perm2" => tc_nonlin__perm2::make,
-      "mutual__pari" => mutual__pari::make,
-      "mutual__src2" => mutual__src2::make,
-      "mutual__perm2" => mutual__perm2::make,
-      "scc_chain__pari" => scc_chain__pari::make,
-      "scc_chain__u64" => scc_chain__u64::make,
-      "repeated__ser" => repeated__ser::make,
-      "repeated__u64" => repeated__u64::make,
-      "three_dyn__perm2" => three_dyn__perm2::make,
-      "four_dyn__pari" => four_dyn__pari::make,
-      "conds__src1" => conds__src1::make,
-      "conds__perm1" => conds__perm1::make,
-      "count_up__par" => count_up__par::make,
-      "multi_head__topar" => multi_head__topar::make,
-      "facts__run" => facts__run::make,
-      "facts__redecl" => facts__redecl::make,
+      "tc_left__permpar" => tc_left__permpar::make,
+      "tc_nonlin__topar" => tc_nonlin__topar::make,
+      "mutual__ser" => mutual__ser::make,
+      "mutual__src0" => mutual__src0::make,
+      "mutual__runhead" => mutual__runhead::make,
+      "mutual__u64" => mutual__u64::make,
+      "scc_chain__perm2" => scc_chain__perm2::make,
+      "diamond__pari" => diamond__pari::make,
+      "repeated__perm2" => repeated__perm2::make,
+      "three_dyn__pari" => three_dyn__pari::make,
+      "three_dyn__u64" => three_dyn__u64::make,
+      "conds__run" => conds__run::make,
+      "conds__redecl" => conds__redecl::make,
+      "conds__ren" => conds__ren::make,
+      "count_up__to" => count_up__to::make,
+      "multi_head__perm2" => multi_head__perm2::make,
+      "facts__gen" => facts__gen::make,
+      "facts__init3" => facts__init3::make,
       "facts__str" => facts__str::make,
       "opt_cols__gen" => opt_cols__gen::make,
-      "opt_cols__runpar" => opt_cols__runpar::make,
-      "same_gen__to" => same_gen__to::make,
-      "same_gen__strpar" => same_gen__strpar::make,
-      "not_reorderable__ren" => not_reorderable__ren::make,
-      "pre_join_rec__perm2" => pre_join_rec__perm2::make,
-      "two_inputs__run" => two_inputs__run::make,
-      "two_inputs__redecl" => two_inputs__redecl::make,
-      "two_inputs__str" => two_inputs__str::make,
-      "ternary__pari" => ternary__pari::make,
-      "bound_mix__ser" => bound_mix__ser::make,
-      "bound_mix__u64" => bound_mix__u64::make,
-      "join_chain__permpar" => join_chain__permpar::make,
-      "reach__par" => reach__par::make,
-      "self_join3__par" => self_join3__par::make,
-      "lag_right__perm2" => lag_right__perm2::make,
-      "lag_left__pari" => lag_left__pari::make,
-      "lag_mid__ser" => lag_mid__ser::make,
-      "lag_mid__u64" => lag_mid__u64::make,
-      "multi_head_rec__par" => multi_head_rec__par::make,
-      "sp_dual__pari" => sp_dual__pari::make,
-      "sp_dual__src2" => sp_dual__src2::make,
-      "sp_dual__perm2" => sp_dual__perm2::make,
-      "longest_capped__ser" => longest_capped__ser::make,
-      "set_reach__to" => set_reach__to::make,
-      "set_reach__srcto" => set_reach__srcto::make,
+      "opt_cols__init3" => opt_cols__init3::make,
+      "same_gen__par" => same_gen__par::make,
+      "same_gen__str" => same_gen__str::make,
+      "not_reorderable__perm1" => not_reorderable__perm1::make,
+      "pre_join_rec__topar" => pre_join_rec__topar::make,
+      "two_inputs__to" => two_inputs__to::make,
+      "two_inputs__srcto" => two_inputs__srcto::make,
+      "two_inputs__perm1" => two_inputs__perm1::make,
+      "wild__par" => wild__par::make,
+      "ternary__permpar" => ternary__permpar::make,
+      "bound_mix__perm2" => bound_mix__perm2::make,
+      "join_chain__pari" => join_chain__pari::make,
+      "cond_simple_join__ser" => cond_simple_join__ser::make,
+      "zero_arity__ser" => zero_arity__ser::make,
+      "lag_right__pari" => lag_right__pari::make,
+      "lag_right__u64" => lag_right__u64::make,
+      "lag_three__par" => lag_three__par::make,
+      "lag_mid__perm2" => lag_mid__perm2::make,
+      "lag_late_delta__pari" => lag_late_delta__pari::make,
+      "multi_head_rec__exp" => multi_head_rec__exp::make,
+      "sp_dual__mrt" => sp_dual__mrt::make,
+      "sp_dual__init" => sp_dual__init::make,
+      "sp_dual__permpar" => sp_dual__permpar::make,
+      "longest_capped__pari" => longest_capped__pari::make,
+      "set_reach__run" => set_reach__run::make,
+      "set_reach__redecl" => set_reach__redecl::make,
       "bset__pari" => bset__pari::make,
       "opt_lat__ser" => opt_lat__ser::make,
       "lex_dual_lat__ser" => lex_dual_lat__ser::make,
@@ -169,54 +175,56 @@ fn lookup(name: &str) -> fn() -> Box<dyn Driven> {
       "lat_count_all__pari" => lat_count_all__pari::make,
       "lat_input__topar" => lat_input__topar::make,
       "lat_input__srcred" => lat_input__srcred::make,
-      "count_paths__to" => count_paths__to::make,
-      "count_paths__srcto" => count_paths__srcto::make,
-      "neg_basic__pari" => neg_basic__pari::make,
-      "neg_basic__src2" => neg_basic__src2::make,
-      "neg_basic__perm2" => neg_basic__perm2::make,
-      "agg_depth__ser" => agg_depth__ser::make,
-      "agg_lattice__to" => agg_lattice__to::make,
-      "neg_rec_after__exp" => neg_rec_after__exp::make,
-      "agg_empty__to" => agg_empty__to::make,
-      "agg_const_args__par" => agg_const_args__par::make,
-      "disj__par" => disj__par::make,
-      "disj__src1" => disj__src1::make,
+      "count_paths__par" => count_paths__par::make,
+      "count_paths__src1" => count_paths__src1::make,
+      "count_paths__runpar" => count_paths__runpar::make,
+      "neg_basic__mrt" => neg_basic__mrt::make,
+      "neg_basic__init" => neg_basic__init::make,
+      "neg_basic__permpar" => neg_basic__permpar::make,
+      "agg_depth__pari" => agg_depth__pari::make,
+      "agg_user__ser" => agg_user__ser::make,
+      "agg_bound_mix__ser" => agg_bound_mix__ser::make,
+      "agg_empty_rel__ser" => agg_empty_rel__ser::make,
+      "agg_const_args__exp" => agg_const_args__exp::make,
+      "disj__to" => disj__to::make,
+      "disj__srcto" => disj__srcto::make,
       "disj__perm1" => disj__perm1::make,
       "disj_nested__pari" => disj_nested__pari::make,
       "rep_expr__ser" => rep_expr__ser::make,
       "multi_head_disj__exp" => multi_head_disj__exp::make,
       "mac_basic__par" => mac_basic__par::make,
       "mac_basic__src1" => mac_basic__src1::make,
-      "mac_basic__exp" => mac_basic__exp::make,
-      "mac_nested__par" => mac_nested__par::make,
-      "mac_gensym_disj__exppar" => mac_gensym_disj__exppar::make,
-      "mac_block__pari" => mac_block__pari::make,
-      "stress_lat__ser" => stress_lat__ser::make,
-      "stress_rel__pari" => stress_rel__pari::make,
-      "rnd_core_03__par" => rnd_core_03__par::make,
-      "rnd_core_06__ser" => rnd_core_06__ser::make,
-      "rnd_core_08__pari" => rnd_core_08__pari::make,
-      "rnd_core_11__par" => rnd_core_11__par::make,
-      "rnd_core_14__ser" => rnd_core_14__ser::make,
-      "rnd_core_16__pari" => rnd_core_16__pari::make,
-      "rnd_core_19__par" => rnd_core_19__par::make,
-      "rnd_core_22__ser" => rnd_core_22__ser::make,
-      "rnd_core_24__pari" => rnd_core_24__pari::make,
-      "rnd_core_27__par" => rnd_core_27__par::make,
-      "rnd_core_30__ser" => rnd_core_30__ser::make,
-      "rnd_agg_02__pari" => rnd_agg_02__pari::make,
-      "rnd_agg_05__par" => rnd_agg_05__par::make,
-      "rnd_agg_08__ser" => rnd_agg_08__ser::make,
-      "rnd_agg_10__pari" => rnd_agg_10__pari::make,
-      "rnd_agg_13__par" => rnd_agg_13__par::make,
-      "rnd_prec_01__ser" => rnd_prec_01__ser::make,
-      "rnd_prec_02__to" => rnd_prec_02__to::make,
-      "rnd_prec_04__par" => rnd_prec_04__par::make,
-      "rnd_prec_05__topar" => rnd_prec_05__topar::make,
-      "rnd_prec_07__pari" => rnd_prec_07__pari::make,
-      "rnd_prea_01__ser" => rnd_prea_01__ser::make,
-      "rnd_prea_03__pari" => rnd_prea_03__pari::make,
-      "rnd_prea_06__par" => rnd_prea_06__par::make,
+      "mac_basic__runpar" => mac_basic__runpar::make,
+      "mac_capture__exppar" => mac_capture__exppar::make,
+      "mac_gensym_disj__pari" => mac_gensym_disj__pari::make,
+      "mac_block__ser" => mac_block__ser::make,
+      "mac_disj__exp" => mac_disj__exp::make,
+      "stress_rel__ser" => stress_rel__ser::make,
+      "rnd_core_02__pari" => rnd_core_02__pari::make,
+      "rnd_core_05__par" => rnd_core_05__par::make,
+      "rnd_core_08__ser" => rnd_core_08__ser::make,
+      "rnd_core_10__pari" => rnd_core_10__pari::make,
+      "rnd_core_13__par" => rnd_core_13__par::make,
+      "rnd_core_16__ser" => rnd_core_16__ser::make,
+      "rnd_core_18__pari" => rnd_core_18__pari::make,
+      "rnd_core_21__par" => rnd_core_21__par::make,
+      "rnd_core_24__ser" => rnd_core_24__ser::make,
+      "rnd_core_26__pari" => rnd_core_26__pari::make,
+      "rnd_core_29__par" => rnd_core_29__par::make,
+      "rnd_agg_02__ser" => rnd_agg_02__ser::make,
+      "rnd_agg_04__pari" => rnd_agg_04__pari::make,
+      "rnd_agg_07__par" => rnd_agg_07__par::make,
+      "rnd_agg_10__ser" => rnd_agg_10__ser::make,
+      "rnd_agg_12__pari" => rnd_agg_12__pari::make,
+      "rnd_agg_15__par" => rnd_agg_15__par::make,
+      "rnd_prec_02__par" => rnd_prec_02__par::make,
+      "rnd_prec_03__topar" => rnd_prec_03__topar::make,
+      "rnd_prec_05__pari" => rnd_prec_05__pari::make,
+      "rnd_prec_07__ser" => rnd_prec_07__ser::make,
+      "rnd_prec_08__to" => rnd_prec_08__to::make,
+      "rnd_prea_03__ser" => rnd_prea_03__ser::make,
+      "rnd_prea_05__pari" => rnd_prea_05__pari::make,
+      "rnd_prea_08__par" => rnd_prea_08__par::make,
       _ => panic!("no such program variant in this shard: {}", name),
    }
 }
